@@ -244,7 +244,7 @@ impl<'a> Hist<'a> {
                                         if cand.dp_path().as_slice() == on_wire.as_slice() && cand.src_ia() == v.header().src_ia() && cand.dst_ia() == v.header().dst_ia() {
                                             // (the same route may have been delivered with and without metadata: which copy the
                                             // manager kept cannot be seen on the wire; the benign reading is taken)
-                                            if found.as_ref().map(|f: &ScionPath| f.metadata().is_none()).unwrap_or(true) {
+                                            if found.as_ref().map(|f: &ScionPath| crate::hist::unevaluable(f)).unwrap_or(true) {
                                                 found = Some(cand.clone());
                                             }
                                         }
